@@ -149,3 +149,8 @@ def decode_prefix_chain(byte_terms):
         else:
             o = const(32, 0)
     return o
+
+
+# size of the simulated memory (hexsim.hpp MEMORY_SIZE_WORDS = 200000 words): addresses at or beyond it are outside every property
+MEMORY_WORDS = 200000
+MEMORY_BYTES = 4 * MEMORY_WORDS
